@@ -972,6 +972,18 @@ impl<const N: usize> World<N> {
                     }
                     Err(_) => self.fail("unexpected_panic", format!("{} panicked; the model expected {:?}", name, exp)),
                 }
+                // FusedStream::is_terminated is documented as the receiver's is_terminated
+                {
+                    use futures_core::FusedStream;
+                    let t = s.obj.is_terminated();
+                    let mo = self.m.observe();
+                    if t != mo.is_terminated {
+                        self.fail(
+                            "observer_mismatch",
+                            format!("FusedStream::is_terminated() = {}, the model says {}", t, mo.is_terminated),
+                        );
+                    }
+                }
                 s.waker = k;
                 self.strm = Some(s);
             }
